@@ -62,6 +62,13 @@ FAULTS = {
     "surplus-args": "await hlast 1 2 3 4 5",
     "priority-range": "priority 7.0",
     "action-arg-type": "await UtteranceBotAction(script=None)",
+    # references: a variable that nothing defines, and an event that the referenced object does not have - the error arises when
+    # the head ARRIVES at the statement (the event name is evaluated to register the waiting head), not when an event comes in
+    "undefined-ref-match": "match $undefinedref.Finished()",
+    "undefined-ref-send": "send $undefinedref.Stop()",
+    "unknown-member-action-match": 'start TimerBotAction(timer_name="q", duration=1.0) as $qref\nmatch $qref.Bogus()',
+    "unknown-member-action-send": 'start TimerBotAction(timer_name="q", duration=1.0) as $qref\nsend $qref.Bogus()',
+    "not-a-reference-match": "$notref = 5\nmatch $notref.Finished()",
     # the erroneous match has a relative (child flow / sibling head) waiting for the same event name
     "bad-regex-match-with-child": 'start evcchild\nmatch EvC(v=regex("("))',
     "bad-regex-match-or-group": 'match EvC(v=regex("(")) or EvC(v="other")',
